@@ -620,7 +620,8 @@ impl Transaction {
 
     // calculate cumulative fee share in block
     pub fn generate_cumulative_fees(&mut self, cumulative_fees: Currency) -> Currency {
-        self.cumulative_fees = cumulative_fees + self.total_fees;
+        // saturating : fees come from unvalidated amounts and must not wrap around
+        self.cumulative_fees = cumulative_fees.saturating_add(self.total_fees);
         self.cumulative_fees
     }
 
@@ -639,7 +640,8 @@ impl Transaction {
                 }
                 slip.amount
             })
-            .sum::<Currency>();
+            // saturating : a sum of unvalidated amounts must not wrap around (2^63 + 2^63 would read as 0)
+            .fold(0 as Currency, |sum, amount| sum.saturating_add(amount));
 
         let nolan_out = self
             .to
@@ -658,7 +660,8 @@ impl Transaction {
                 }
                 slip.amount
             })
-            .sum::<Currency>();
+            // saturating : a sum of unvalidated amounts must not wrap around (2^63 + 2^63 would read as 0)
+            .fold(0 as Currency, |sum, amount| sum.saturating_add(amount));
 
         self.total_in = nolan_in;
         self.total_out = nolan_out;
